@@ -109,7 +109,9 @@ class SuperNet(DNAS):
         :rtype: nn.Module
         """
         model = self.seed
+        seed_training = self.seed.training
         model, _, _ = convert(model, self._input_example, 'export')
+        self.seed.train(seed_training)
         return model
 
     def summary(self) -> Dict[str, Dict[str, Any]]:
